@@ -1,6 +1,7 @@
 SPECIFICATION Spec
-CONSTANT CVariant = "faithful"
+CONSTANT CVariant = "bits_raw_words"
 CONSTANT MaxOps = 6
+VIEW view
 INVARIANT DequeLayoutFree
 INVARIANT GhostAgrees
 INVARIANT MapOrderFree
